@@ -274,8 +274,37 @@ func (fv *FV) applyContract(st *State, call *ast.CallExpr, fc *FuncContract, sel
 	for g, t := range st.ghost {
 		ghostPre[g] = t
 	}
+	// type arguments of a generic callee
+	var typeArgs map[string]types.Type
+	if osig, ok := fc.Obj.Type().(*types.Signature); ok && osig.TypeParams() != nil && osig.TypeParams().Len() > 0 {
+		var id *ast.Ident
+		switch f := stripParens(call.Fun).(type) {
+		case *ast.IndexExpr:
+			id, _ = stripParens(f.X).(*ast.Ident)
+			if se, ok := stripParens(f.X).(*ast.SelectorExpr); ok {
+				id = se.Sel
+			}
+		case *ast.IndexListExpr:
+			id, _ = stripParens(f.X).(*ast.Ident)
+			if se, ok := stripParens(f.X).(*ast.SelectorExpr); ok {
+				id = se.Sel
+			}
+		case *ast.Ident:
+			id = f
+		case *ast.SelectorExpr:
+			id = f.Sel
+		}
+		if id != nil {
+			if inst, ok := fv.info.Instances[id]; ok && inst.TypeArgs != nil {
+				typeArgs = map[string]types.Type{}
+				for i := 0; i < osig.TypeParams().Len() && i < inst.TypeArgs.Len(); i++ {
+					typeArgs[osig.TypeParams().At(i).Obj().Name()] = inst.TypeArgs.At(i)
+				}
+			}
+		}
+	}
 	mkEnv := func(post map[string]Term, results []Term) *SpecEnv {
-		env := &SpecEnv{reg: fv.reg, pk: fc.Pkg, bound: map[string]Term{}}
+		env := &SpecEnv{reg: fv.reg, pk: fc.Pkg, bound: map[string]Term{}, typeArgs: typeArgs}
 		env.lookup = func(name string, old bool) (Term, bool) {
 			if results != nil {
 				for i, rn := range fc.Results {
